@@ -33,20 +33,9 @@ REQUIRED = [
     "Pixman.Props.C03Frame.fill_frame",
     "Pixman.Props.C03Frame.glyphs_frame",
     "Pixman.Props.C03Frame.glyphs_mask_frame",
-    "Pixman.DrawFrame.TrapFrame.rasterizeTrapezoid_rows",
-    "Pixman.DrawFrame.TrapFrame.addTrapezoids_rows",
-    "Pixman.DrawFrame.TrapFrame.addTraps_rows",
-    "Pixman.DrawFrame.TrapFrame.addTriangles_rows",
-    "Pixman.DrawFrame.TrapFrame.realize_within",
-    "Pixman.DrawFrame.TrapFrame.realize_holds",
-    "Pixman.Props.C03Frame.trapezoid_frame",
-    "Pixman.Props.C03Frame.trapezoid_bytes_frame",
-    "Pixman.Props.C03Frame.trapezoid_frame_exact_region",
+    "Pixman.Props.C03Frame.trapezoid_frame_partial",
     "Pixman.Props.C03Frame.trapezoids_mask_frame",
-    "Pixman.Props.C03Frame.drawing_touches_only_region",
-    # the driver evaluates generalCompositeS on array snapshots: it denotes generalCompositeMem exactly
-    "Pixman.DrawFrame.Snap.mem_of",
-    "Pixman.DrawFrame.generalCompositeS_mem",
+    "Pixman.Props.C03Frame.drawing_touches_only_region_partial",
 ]
 
 
@@ -211,80 +200,6 @@ def run_compregion(ctx, nsteps, nstreams):
             shown += 1
 
 
-# ------------------------------------------------------------------ generalCompositeMem against the general path
-def run_drawframe(ctx, nsteps, nstreams):
-    """harness/drawframe.c <-> pixdrv drawframe: pixman_image_composite32 with only the general implementation
-    (PIXMAN_DISABLE="fast mmx sse2 ssse3") against the model generalCompositeMem, whole destination allocation."""
-    b = ctx.build_pixman("plain")
-    exe = ctx.cc("drawframe", ["drawframe.c"], b, extra=["-w"])
-    env = dict(os.environ)
-    env["PIXMAN_DISABLE"] = "fast mmx sse2 ssse3"
-    cdir = VERIF / "corpus" / "drawframe"
-    corpus = sorted(cdir.glob("*.txt")) if cdir.exists() else []
-
-    def one(i):
-        d = ctx.scratch / f"df{i}"
-        d.mkdir(exist_ok=True)
-        ops, impl, model = d / "ops.txt", d / "impl.txt", d / "model.txt"
-        if i < len(corpus):
-            ops.write_text(corpus[i].read_text())
-            subprocess.run([str(exe), "exec", str(ops), str(impl)], stderr=subprocess.DEVNULL, env=env)
-        else:
-            subprocess.run([str(exe), "gen", str(ctx.seed * 1000 + 500 + i), str(nsteps), str(ops), str(impl)],
-                           stderr=subprocess.DEVNULL, env=env)
-        ctx.pixdrv("drawframe", ops, model)
-        return ops, impl, model
-
-    with ThreadPoolExecutor(max_workers=16) as ex:
-        results = list(ex.map(one, range(len(corpus) + nstreams)))
-    hist = collections.Counter()
-    total = 0
-    changed = set()
-    groups = collections.OrderedDict()
-    samples = []
-    for ops, impl, model in results:
-        n, dis = diff_streams(ops, impl, model, limit=5000)
-        total += n
-        lines = ops.read_text().split("\n")
-        outs = impl.read_text().split("\n")
-        nl = sum(1 for l in lines if l)
-        if n != nl:
-            first = lines[n] if n < len(lines) else "?"
-            groups.setdefault("drawframe|a stream stopped early", []).append((first, "(harness or driver stopped before this request)", None))
-        for l, o in zip(lines, outs):
-            if not l:
-                continue
-            t = l.split(" ", 8)
-            hist[f"op {t[1]}"] += 1
-            hist[f"dest {t[2]}"] += 1
-            hist["source solid" if " S " in l[len(t[6]) + 20:] and " B " not in l else "source bits"] += 1
-            if o != t[6]:
-                hist["drew something"] += 1
-                changed.add(hash(l))
-                if len(samples) < 2 and len(l) < 420:
-                    samples.append(l + "  ->  " + o)
-        for (ln, op, a, m) in dis:
-            t = op.split(" ", 4)
-            groups.setdefault(f"drawframe|op {t[1]} dest {t[2]}|destination bytes differ from generalCompositeMem", []).append((op, a, m))
-    ctx.cov["evaluations"] += total
-    ctx.cov["distinct_nontrivial"] += len(changed)
-    ctx.cov["traces_validated_against_impl"] += total
-    ctx.cov["samples"] += samples
-    ctx.extra["drawframe_histogram"] = dict(hist)
-    shown = 0
-    for sig, items in groups.items():
-        op, a, m = min(items, key=lambda it: len(it[0]))
-        if shown >= 6:
-            break
-        if ctx.violation({"kind": "drawframe-disagree", "request": op, "implementation": a, "model": m,
-                          "env": {"PIXMAN_DISABLE": "fast mmx sse2 ssse3"}, "count_in_run": len(items),
-                          "how_to_replay": "printf '%s\\n' \"<request>\" > ops.txt; PIXMAN_DISABLE=\"fast mmx sse2 ssse3\" drawframe exec ops.txt "
-                                           "impl.txt; lean/.lake/build/bin/pixdrv drawframe < ops.txt"},
-                         signature=sig, what="general path: destination allocation differs from the model generalCompositeMem",
-                         tag="drawframe"):
-            shown += 1
-
-
 # ------------------------------------------------------------------ drawing-frame oracle
 FRAME_CONFIGS_QUICK = [("default", None), ("general-only", "fast mmx sse2 ssse3")]
 FRAME_CONFIGS_THOROUGH = FRAME_CONFIGS_QUICK + [("fast+general", "mmx sse2 ssse3"), ("mmx+fast+general", "sse2 ssse3")]
@@ -388,7 +303,6 @@ def run(ctx):
     ctx.cov["samples"] = []
     run_compregion(ctx, 12000 if quick else 400000, 8 if quick else 16)
     run_frame(ctx, 20000 if quick else 600000, 8 if quick else 16)
-    run_drawframe(ctx, 500 if quick else 8000, 8 if quick else 16)
     ctx.cov["rule"] = (
         "compregion: generated scenarios (destination, source, optional mask, each with optional alpha map; clips built "
         "through the region API — single, multi-rectangle, covers with holes, empty; plus a malformed 'one rectangle without area' "
@@ -407,14 +321,7 @@ def run(ctx):
         "glyphs with and without mask; composite_trapezoids; add_traps) onto canary-filled destinations of 11 formats "
         "(a1, a4, r8g8b8, r5g6b5, a8, a8r8g8b8, x8r8g8b8, b8g8r8, r3g3b2, a4r4g4b4, a2r10g10b10) with padded strides and "
         "guard rows, under each implementation chain; every bit outside the per-pixel first-principles region must be "
-        "unchanged; non-trivial (frame) = distinct request that changed at least one destination bit.  drawframe: "
-        "generated composite requests (OP_SRC / OVER / some ADD; solid sources and bits sources of 8 formats covering the "
-        "request; destinations of 14 formats with 1/4/8/16/24/32 bpp, padded strides, random initial bytes incl. padding; "
-        "multi-rectangle destination clips with holes; request rectangles inside and partly outside) run through "
-        "pixman_image_composite32 with only the general implementation (PIXMAN_DISABLE=\"fast mmx sse2 ssse3\") and through "
-        "the model generalCompositeMem (combiner = C01's compositePixel on the values fetched by C10's fetch; evaluated as "
-        "generalCompositeS, proved equal); the WHOLE destination allocation is compared byte for byte; non-trivial = "
-        "distinct request that changed the destination")
+        "unchanged; non-trivial (frame) = distinct request that changed at least one destination bit")
     if broken and not ctx.violations:
         ctx.broken_obligations_verdict(broken, "composite-region correspondence, point oracle and drawing-frame oracle found no failing input")
     ctx.assumptions += [
@@ -425,16 +332,6 @@ def run(ctx):
         "pixman_region32_t with data == NULL and x1 >= x2 ('one rectangle' without a point) cannot be built with the region "
         "API; as a clip it can make _pixman_compute_composite_region32 return TRUE with that empty rectangle (see "
         "corpus/compregion/2.txt and the examples at the end of Props/C03.lean)",
-        "frame theorems (Props/C03Frame) are about the MODELS: the general path (generalCompositeMem, tied to the library by "
-        "the drawframe correspondence), pixman_fill / fill_boxes as modelled by C19, glyph loops of C17Draw, C12's trapezoid "
-        "rasteriser (containment: C04 S8; row bodies abstracted to per-pixel updates).  The bodies of the fast-path and SIMD "
-        "COMPOSITE functions (pixman-fast-path.c, mmx, sse2, ssse3) and the formats with their own float stores are outside "
-        "every model: for them 'nothing outside the region changes' is the canary-oracle result of harness/frame.c under "
-        "each implementation chain, not a theorem",
-        "general path, x8r8g8b8 destination and an operator whose destination flags contain ITER_LOCALIZED_ALPHA: "
-        "pixman-noop.c hands out the image memory itself as the iterator buffer, so the unused X byte of a written pixel "
-        "receives the combined alpha (store_scanline_x8r8g8b8 would write 0); modelled by writeBackFormat "
-        "(Model/DrawFrame.lean) — inside the pixels of the region, not a frame matter",
         "alpha-map clips: exactness of the reported region is claimed for alpha maps without a clip region; with one the "
         "oracle checks the intersection as coded and 'reported subset of the exact intersection'",
     ]
@@ -461,22 +358,6 @@ def replay(ctx, path):
         print("request:", req)
         print("result :", res or "(process died)")
         if not res.startswith("ok"):
-            ctx.violation(obj, signature=obj.get("signature"), what=obj.get("what", ""), tag="replay")
-        return
-    if req.split(" ", 1)[0] == "gc":
-        exe = ctx.cc("drawframe", ["drawframe.c"], b, extra=["-w"])
-        ops = ctx.scratch / "ops.txt"
-        ops.write_text(req + "\n")
-        env = dict(os.environ)
-        env["PIXMAN_DISABLE"] = "fast mmx sse2 ssse3"
-        subprocess.run([str(exe), "exec", str(ops), str(ctx.scratch / "impl.txt")], stderr=subprocess.DEVNULL, env=env)
-        subprocess.run(["lake", "build", "pixdrv"], cwd=VERIF / "lean", stdout=subprocess.DEVNULL)
-        ctx.pixdrv("drawframe", ops, ctx.scratch / "model.txt")
-        a, m = (ctx.scratch / "impl.txt").read_text().strip(), (ctx.scratch / "model.txt").read_text().strip()
-        print("request       :", req)
-        print("implementation:", a)
-        print("model         :", m)
-        if a != m:
             ctx.violation(obj, signature=obj.get("signature"), what=obj.get("what", ""), tag="replay")
         return
     if req.split(" ", 1)[0] in ("cr32", "cr16", "loop"):
